@@ -447,3 +447,87 @@ theorem txt_rdata (vals : List (List Nat)) (o : Option Name) (h : ∀ v ∈ vals
   simp [rdataFromTokens, this]
 
 end HickoryVerif.C20
+
+namespace HickoryVerif.C20
+open HickoryVerif HickoryVerif.ZoneLex HickoryVerif.ZoneParse HickoryVerif.Spec.MasterFile
+
+/-! ## names at the 255-octet limit, and the same relative text across `$ORIGIN` changes
+
+Two layouts a loader can get wrong without any other test noticing (seeded changes C20-1, C20-2):
+both are inside `parse_render_partial` — lines are read independently, every name against the
+origin in force where it is written. -/
+
+/-- a file with one `<rr>` line whose owner is stated: its only name use is that owner -/
+theorem fileNamesOK_single_rr (st : RState) (r : RRLine) (w : List Nat) (n : Name)
+    (ho : r.owner = .name w n) (h : parseName w st.origin = .ok n) : FileNamesOK st [.rr r] := by
+  intro u hu
+  unfold nameUses at hu
+  simp only [ho] at hu
+  have hu' : u = (w, n, st.origin) := by
+    split at hu <;> simpa [nameUses] using hu
+  subst hu'
+  exact h
+
+def l63 (c : Nat) : List Nat := List.replicate 63 c
+def l49 : List Nat := List.replicate 49 100
+
+/-- `aaa…(63).bbb…(63).ccc…(63).ddd…(49)` : with `example.com.` exactly 255 octets on the wire -/
+def relOwner255 : List Nat := dotted [l63 97, l63 98, l63 99] ++ l49
+def absOwner255 : Name :=
+  { labels := [l63 97, l63 98, l63 99] ++ [l49] ++ exampleCom.labels, fqdn := true }
+
+example : absOwner255.encodedLen = 255 := by decide
+
+/-- the relative text parses to the 255-octet name (by the general theorem, not by evaluation) -/
+theorem relOwner255_parses : parseName relOwner255 (some exampleCom) = .ok absOwner255 :=
+  name_relative [l63 97, l63 98, l63 99] l49 exampleCom (by decide +kernel) (by decide +kernel)
+
+/-- `<relOwner255> 60 A 1.2.3.4` -/
+def zone255 : List SLine :=
+  [ .rr ⟨.name relOwner255 absOwner255, [([32], [54, 48])], ([32], [65]),
+         [.item [32] (.word [49, 46, 50, 46, 51, 46, 52])], ⟨[], none, 0⟩⟩ ]
+
+/-- **a relative owner whose absolute form is exactly 255 octets loads** (through
+`loads_exactly_partial`; the name hypothesis is discharged by `name_relative`) -/
+theorem relative_owner_of_255_octets_loads :
+    parse (render (zone255.map SLine.line)) (some exampleCom) =
+      .ok (exampleCom, [ (keyOf absOwner255 .a, RSet.ofRec .a ⟨absOwner255, 1, 60, .a [1, 2, 3, 4]⟩) ]) :=
+  loads_exactly_partial exampleCom exampleCom zone255
+    { origin := some exampleCom, owner := some absOwner255, lastTtl := some 60 }
+    [ { owner := absOwner255, cls := 1, ttl := 60, typ := 1, origin := some exampleCom,
+        rdata := [[49, 46, 50, 46, 51, 46, 52]] } ]
+    _ (by decide +kernel) (by decide +kernel)
+    (fileNamesOK_single_rr _ _ _ _ rfl relOwner255_parses) (by decide +kernel) (by decide +kernel) rfl
+
+def nOther : Name := { labels := [[111, 116, 104, 101, 114]], fqdn := true }                 -- other.
+def nXExample : Name := { labels := [[120], [101, 120, 97, 109, 112, 108, 101], [99, 111, 109]], fqdn := true }
+def nXOther : Name := { labels := [[120], [111, 116, 104, 101, 114]], fqdn := true }
+
+/-- ```
+    x 60 A 1.1.1.1
+    $ORIGIN other. ; c
+    x 60 A 2.2.2.2
+      60 TXT t
+    ``` : the same relative owner text before and after `$ORIGIN`, then an inherited owner -/
+def zoneSwitch : List SLine :=
+  [ .rr ⟨.name [120] nXExample, [([32], [54, 48])], ([32], [65]), [.item [32] (.word [49, 46, 49, 46, 49, 46, 49])], ⟨[], none, 0⟩⟩,
+    .origin [32] [111, 116, 104, 101, 114, 46] nOther ⟨[32], some [32, 99], 0⟩,
+    .rr ⟨.name [120] nXOther, [([32], [54, 48])], ([32], [65]), [.item [32] (.word [50, 46, 50, 46, 50, 46, 50])], ⟨[], none, 0⟩⟩,
+    .rr ⟨.inherit 32, [([32], [54, 48])], ([32], [84, 88, 84]), [.item [32] (.word [116])], ⟨[], none, 0⟩⟩ ]
+
+/-- **the same relative owner text denotes a different name after `$ORIGIN`, and inherited-owner
+lines follow the new one** (through `loads_exactly_partial`) -/
+theorem same_relative_owner_after_origin_change :
+    parse (render (zoneSwitch.map SLine.line)) (some exampleCom) =
+      .ok (nOther,
+        [ (keyOf nXExample .a, RSet.ofRec .a ⟨nXExample, 1, 60, .a [1, 1, 1, 1]⟩),
+          (keyOf nXOther .a, RSet.ofRec .a ⟨nXOther, 1, 60, .a [2, 2, 2, 2]⟩),
+          (keyOf nXOther .txt, RSet.ofRec .txt ⟨nXOther, 1, 60, .txt [[116]]⟩) ]) :=
+  loads_exactly_partial exampleCom nOther zoneSwitch
+    { origin := some nOther, owner := some nXOther, lastTtl := some 60 }
+    [ { owner := nXExample, cls := 1, ttl := 60, typ := 1, origin := some exampleCom, rdata := [[49, 46, 49, 46, 49, 46, 49]] },
+      { owner := nXOther, cls := 1, ttl := 60, typ := 1, origin := some nOther, rdata := [[50, 46, 50, 46, 50, 46, 50]] },
+      { owner := nXOther, cls := 1, ttl := 60, typ := 16, origin := some nOther, rdata := [[116]] } ]
+    _ (by decide) (by decide) (by unfold FileNamesOK; decide) (by decide) (by decide) rfl
+
+end HickoryVerif.C20
